@@ -425,6 +425,16 @@ let shapes : (string * (string * M.node list) list * G.custom list) list =
                                    "main", [ M.NImport (lit_str "lib", bs "L"); forv "i" (var "xs") [ ifn (M.EBin (M.BEq, M.EModCall (var "L", bs "m", [ var "i" ]), lit_str "b")) [ text "T" ] [ text "F" ] ] ] ], [ f1 ];
     "macro-as-filter-operand", [ "main", [ macro "m" [] [ print (call "fn1" [ lit_int 2 ]) ]; text "x"; print (filt (call "m" []) "upper" []); print (filt (call "m" []) "length" []); text "y" ] ], [ f1 ];
     "macro-as-hash-value", [ "main", [ macro "m" [] [ print (filt (lit_str "v") "sf0" []) ]; M.NSet (bs "h", M.EHash [ (lit_str "k", call "m" []) ]); print (filt (filt (var "h") "keys" []) "join" []); print (M.EBin (M.BConcat, M.EAttr (var "h", bs "k"), lit_str "")) ] ], [ s0 ];
+    (* several defaulted parameters, left to their defaults: a failing default is a failure whichever one it is and
+       whatever the later ones do *)
+    "macro-defaults-local", [ "main", [ macro "box" [ ("a", Some (call "fn1" [ lit_int 1 ])); ("b", Some (lit_str "B")); ("c", Some (call "fetch" [ lit_int 2 ])); ("d", Some (lit_str "D")) ]
+                                          [ text "["; print (var "a"); text "|"; print (var "b"); text "|"; print (var "c"); text "|"; print (var "d"); text "]" ];
+                                        text "x"; print (call "box" []); print (call "box" [ lit_str "p" ]); print (call "box" [ lit_str "p"; lit_str "q" ]); text "y" ] ], [ f1; f0 ];
+    "macro-defaults-self-import", [ "lib", [ macro "box" [ ("a", Some (filt (lit_str "v") "sf0" [])); ("b", Some (var "a")); ("c", Some (lit_int 3)) ] [ print (var "a"); print (var "b"); print (var "c") ] ];
+                                    "main", [ macro "loc" [ ("k", Some (call "fn1" [ lit_int 5 ])); ("l", Some (lit_str "L")) ] [ print (var "k"); print (var "l") ];
+                                              M.NImport (lit_str "lib", bs "L"); M.NFrom (lit_str "lib", [ (bs "box", bs "bx") ]); text "x";
+                                              print (M.EModCall (var "L", bs "box", [])); print (call "bx" []); print (M.EModCall (var "_self", bs "loc", []));
+                                              forv "i" (var "xs") [ print (call "loc" []) ]; text "y" ] ], [ s0; f1 ];
     "macro-self", [ "main", [ macro "m" [ ("a", None) ] [ print (call "fn1" [ var "a" ]) ]; text "x"; print (M.EModCall (var "_self", bs "m", [ lit_int 1 ])) ] ], [ f1 ];
     "macro-import", [ "lib", [ macro "m" [ ("a", Some (call "fn1" [ lit_int 9 ])) ] [ print (filt (var "a") "sf0" []) ] ]; "main", [ M.NImport (lit_str "lib", bs "L"); text "x"; print (M.EModCall (var "L", bs "m", [])) ] ], [ f1; s0 ];
     "macro-from", [ "lib", [ macro "m" [ ("a", None) ] [ print (filt (var "a") "sf0" []) ] ]; "main", [ M.NFrom (lit_str "lib", [ (bs "m", bs "m") ]); text "x"; print (call "m" [ lit_int 1 ]) ] ], [ s0 ];
